@@ -531,6 +531,17 @@ class Arith:
                 else:
                     i += 1
             return res
+        if t in (ast.BitXor, ast.BitOr) and not isinstance(b, z3.ExprRef) and isinstance(b, int) and 0 <= b < 2 ** 16:
+            # python ints are two's complement: bit i of x is (x div 2^i) mod 2 also for negative x
+            res, i = x, 0
+            while b >> i:
+                if (b >> i) & 1:
+                    bit = (x / (2 ** i)) % 2
+                    res = res + ((1 - 2 * bit) if t is ast.BitXor else (1 - bit)) * (2 ** i)
+                i += 1
+            return res
+        if t in (ast.BitXor, ast.BitOr) and not isinstance(a, z3.ExprRef) and isinstance(a, int):
+            return self.binop_int(t, b, a, pc)
         raise Unsupported(f"int binop {t.__name__} (use bv mode for bit operations)")
 
     # ------------------------------------------------------------ floats
